@@ -2,7 +2,7 @@
 
 _SLICES_Q = [("h_err", "errors", 0, 240), ("h_host", "pool", 0, 400), ("h_host", "soil", 0, 200), ("h_host", "treat", 0, 150), ("h_model", "model", 0, 150), ("h_mmodel", "multi", 0, 100), ("h_date", "sched", 0, 300),
              ("h_date", "single-sample", 0, 700), ("h_raster", "ops", 0, 600), ("h_raster", "heap", 0, 300), ("h_raster", "eq", 0, 200), ("h_metric", "mix", 0, 300),
-             ("h_kern", "radial", 0, 300), ("h_det", "alloc", 0, 100), ("h_det", "factory", 0, 60), ("h_net", "net", 0, 100), ("h_net", "malformed", 0, 100)]
+             ("h_kern", "radial", 0, 300), ("h_det", "alloc", 0, 100), ("h_det", "factory", 0, 60), ("h_det", "quantile", 0, 100), ("h_net", "net", 0, 100), ("h_net", "malformed", 0, 100)]
 _SLICES_T = [(h, m, f, c * 60) for (h, m, f, c) in _SLICES_Q]
 
 PROP = dict(
